@@ -685,7 +685,7 @@ theorem simplifyCk_preserves (hw : WorldOK w) (fuel c : Nat) (e e' : Expr) (c' :
 
 /-- a world whose functions return integers is well behaved -/
 example : WorldOK { method := fun _ _ _ _ _ => .ok (.int 0), func := fun _ _ _ _ => .ok (.int 1) } :=
-  ⟨fun _ _ _ _ v h => by cases h; simp [VLe], fun _ _ _ _ _ v h => by cases h; simp [VLe]⟩
+  ⟨fun _ _ _ _ v _ _ h => by cases h; simp [VLe], fun _ _ _ _ _ v _ _ _ h => by cases h; simp [VLe]⟩
 
 /-- an environment binding a dataset of records is well formed -/
 example : EnvLe (Env.empty.upd "ds" (.list [.obj "E" ["met"] [.int 3], .obj "E" ["met"] [.int 5]]))
